@@ -240,6 +240,7 @@ type fusedFlowActor struct {
 	subID      string
 	seqNo      uint64
 	credit     int64 // outstanding upstream credit; refilled in batches like flowActor
+	started    bool  // true once the first downstream demand has triggered the initial pull
 	config     StageConfig
 }
 
@@ -255,9 +256,16 @@ func (a *fusedFlowActor) Receive(rctx *actor.ReceiveContext) {
 		a.upstream = msg.upstream
 		a.downstream = msg.downstream
 		a.subID = msg.subID
-		// Send initial demand upstream and track the outstanding credit.
-		a.credit = a.config.InitialDemand
-		rctx.Tell(a.upstream, &streamRequest{subID: a.subID, n: a.credit})
+
+	case *streamRequest:
+		// Start pulling on the first downstream demand rather than on stageWire: the
+		// materializer wires the stages one after the other, and demand originates at the
+		// sink (wired last), so by now every stage downstream of this one is wired.
+		if !a.started {
+			a.started = true
+			a.credit = a.config.InitialDemand
+			rctx.Tell(a.upstream, &streamRequest{subID: a.subID, n: a.credit})
+		}
 
 	case *streamElement:
 		result, pass, err := a.fn(msg.value)
